@@ -56,6 +56,11 @@ CHECKS = {
          "C13's search with a RegisterPlan letter (two heights x 9 operator/key combinations + executor-list variants, at most one per history) so that plans meet every validator-set state, max-validator setting and same-block add/remove; the process-local plan table is part of the state. Oracle at the plan height: EndBlock succeeds, batch accepted by the CometBFT mirror, engine holds exactly the plan key, state agrees, executors = exactly the plan list (and the genesis list before); C13's oracle at all other heights; malformed-registration probes in every state leave table and digest unchanged. Known findings D6a/D6b (plan reusing an existing operator with another key / another operator's key) are listed in known_findings.json with structural predicates.",
          "Trusted: as C13. Bounded: depth 5 (quick) / 6 (thorough).",
          "DESIGN.md §6 C14, §7"),
+ "C17": ("model_checking",
+         "exhaustive enumeration of value menus x tree shapes x memory layouts against an independent implementation",
+         "Every configuration of the stated finite menus is enumerated: leaf hash over the full product of boundary numbers and strings, node hash over all ordered pairs (incl. equal/adjacent/all-zero/all-ff) in both argument orders, output roots, L2 denoms, bridge addresses, root-from-proof for trees of 1-9 leaves at every position; each byte-slice input in all 3^n memory layouts (exact capacity / spare capacity with sentinel / sub-slices of one buffer). Oracle: repository value = independent implementation (own SHA3, pinned to Python hashlib vectors) = pinned vectors; result identical in every layout; every byte of every caller backing array unchanged; FinalizeTokenWithdrawal gives the same verdict for a valid claim under every layout of proofs/storage root/block hash.",
+         "Trusted: Go toolchain; the pinned vectors (generated once by vectors/gen_vectors.py with hashlib). Bounded: boundary values represent the 64-bit ranges; proof lists up to 4 elements.",
+         "DESIGN.md §6 C17"),
 }
 NOT_YET = {}
 
